@@ -93,7 +93,9 @@ def replay(job, o, workroot, repo):
         exe, info = native.build(repo, os.path.join(VERIF, "replay", "c20.cpp"), exe)
         if not exe:
             return {"status": "unavailable", "detail": "replay driver did not build: " + info}
-    cands = [["indata", 2, 8, 1, 1], ["indata", 3, 16, 2, 7], ["indata", 4, 12, 3, 5], ["indata", 1, 4, 0, 1], ["roundtrip"]]
+    cands = [["indata", 2, 8, 1, 1], ["indata", 3, 16, 2, 7], ["indata", 4, 12, 3, 5], ["indata", 1, 4, 0, 1], ["roundtrip"], ["gaps"]]
+    if "gap" in job.name:
+        cands = [["gaps"], ["roundtrip"]]
     for c in cands:
         st, detail = native.run(exe, c, timeout=900)
         if st == "confirmed":
